@@ -1013,7 +1013,7 @@ Definition op_adopt (cf : scfg) (max1z max2z : Z) : M (option client * retv) :=
                  let compl := match rel with [] => N.land (first_or eo 0) id_mask | r0 :: _ => N.land r0 id_mask end in
                  let recvd := match rel with
                               | [] => compl
-                              | _ => let r := N.land (lastk rel) id_mask + 1 in if r <? compl then r + 16384 else r
+                              | _ => let r := N.land (lastk rel) id_mask + 1 in if r <=? compl then r + 16384 else r
                               end in
                  let acc := match eo with
                             | [] => recvd
@@ -1035,9 +1035,10 @@ Definition op_read_backoff (c : client) (e : err) : client * retv :=
   match k_rconn c with
   | Some _ => (c, RetWait 2 1000)                          (* the error came from the Persistence *)
   | None =>
-    if N.testbit e 10 then (c, RetWait 2 (s_wmax (k_cfg c))) else
+    if N.testbit e 10 then (c, if s_wmax (k_cfg c) =? 0 then RetWait 0 0 else RetWait 2 (s_wmax (k_cfg c))) else
     let idle := N.min (N.max (k_rwait c) (s_wmin (k_cfg c))) (s_wmax (k_cfg c)) in
-    (c <| k_rwait := 2 * idle |>, RetWait 2 idle)
+    (* a timer of zero is not distinguishable from the released channel *)
+    (c <| k_rwait := 2 * idle |>, if idle =? 0 then RetWait 0 0 else RetWait 2 idle)
   end.
 
 (* ------------------------------------------------------------------ *)
